@@ -297,6 +297,12 @@ func SolveAll(obls []*Obligation, opts solveOpts) {
 		go func(o *Obligation) {
 			defer wg.Done()
 			defer func() { <-sem }()
+			if o.NoRetry {
+				short := opts
+				short.timeoutS = 3
+				Solve(o, short)
+				return
+			}
 			Solve(o, opts)
 		}(o)
 	}
@@ -305,7 +311,7 @@ func SolveAll(obls []*Obligation, opts solveOpts) {
 	// a time, three times the budget): a time-out under load is not a reason to raise an alarm.
 	var retry []*Obligation
 	for _, o := range obls {
-		if !o.ExpectSat && o.Answer != "sat" && o.Answer != "unsat" {
+		if !o.ExpectSat && !o.NoRetry && o.Answer != "sat" && o.Answer != "unsat" {
 			retry = append(retry, o)
 		}
 	}
